@@ -704,7 +704,8 @@ class NDNApp:
                     pass
 
         """
-        name = enc.Name.normalize(name)
+        # The name is kept for every later connection: do not keep views of buffers the caller may reuse after this call
+        name = [bytes(comp) for comp in enc.Name.normalize(name)]
 
         def decorator(func: IntHandler):
             self._autoreg_routes.append(name)
